@@ -185,6 +185,7 @@ fn worker<S: Status>(rx: Receiver<Value>, tx: Sender<Value>) {
                 std::process::exit(3);
             }
             c["fail"] = json!({ "panic": msg });
+            c.as_object_mut().unwrap().remove("keys");
         }
         if tx.send(c).is_err() {
             return;
@@ -276,6 +277,9 @@ fn audit_cmd(t: usize, keys: &[(u32, u64)]) -> Value {
 }
 
 const MAX_HANGS: u64 = 3;
+/// a driver stops after this many histories that ended in a failed call (each of them is a
+/// violation and gets its own chunk file)
+const MAX_FAILS: u64 = 20;
 
 /// start a history; after a history that ended in a failed call the next one goes to a new chunk
 /// file (the validation of a chunk stops at an event that is not a step of the specification)
@@ -310,7 +314,7 @@ fn replay(args: &Args) {
         if line.trim().is_empty() {
             continue;
         }
-        if st.hangs >= MAX_HANGS {
+        if st.hangs >= MAX_HANGS || st.hangs + st.panics >= MAX_FAILS {
             skipped += 1;
             continue;
         }
@@ -410,7 +414,7 @@ fn random(args: &Args) {
     let (mut done, mut histories, mut stamp) = (0u64, 0u64, 0u32);
     let mut fams_used = std::collections::BTreeMap::<String, u64>::new();
     let mut rotate = false;
-    while done < total && st.hangs < MAX_HANGS {
+    while done < total && st.hangs < MAX_HANGS && st.hangs + st.panics < MAX_FAILS {
         let fam = FAMILIES[(histories as usize + rng.below(2) * 4) % FAMILIES.len()];
         let status = if histories % 2 == 0 { "u32" } else { "usize" };
         let nkeys = 6 + rng.below(maxkeys - 5);
